@@ -20,7 +20,7 @@ func init() {
 		explain: "Decides which stores can change an existing line and what they may do to it, and that the text written is the in-order concatenation of the (patched) original lines: (P03-linewrites) every store to the Text of an existing line writes a value derived from the old value of that same line — old + x, strings.Replace(old, a, b, 1), or a regexp replacement whose pattern is ^(prefix)X(suffix)$ with unrestricted groups and whose template re-emits both groups around the new token; " +
 			"(P03-lineending) a line ending of an existing line is only set when that same line has none; (P03-insert) insert() builds the new line list from whole copies of the old lines, in order, plus lines made from the texts to insert, with length old+inserted; (P03-result) the result text is an unconditional in-order fold of Original() = Text + LineEnding over these lines and flatten() keeps every block's lines in order; (P03-write-arg = P05-guarded-write) exactly that text goes to the target file; (P08-nowriters) nothing outside package reconciling writes line fields. " +
 			"Not covered: the line-index arithmetic (which line is patched, where lines are inserted, contiguity of inserted blocks) — value-level.",
-		rules: []ruleFn{ruleP03LineWrites, ruleP03LineEnding, ruleP03Insert, ruleP03ConcatPosition, ruleP03Result, ruleP08NoWriters, ruleP05GuardedWrite, ruleP04PauseToken},
+		rules: []ruleFn{ruleP03LineWrites, ruleP03LineEnding, ruleP03Insert, ruleP03ConcatPosition, ruleP03EntryLine, ruleP03Result, ruleP08NoWriters, ruleP05GuardedWrite, ruleP04PauseToken},
 	})
 	register(&propSpec{
 		id:    "C08",
